@@ -22,8 +22,16 @@ Small == { Sc("f32"), Vc(2, "f32"), Vc(3, "f32"), Vc(4, "f32"), Mt(3, 3, "f32"),
 Arr(n, t) == [ k |-> "array", n |-> n, e |-> t ]
 InnerRef == [ k |-> "struct", name |-> "Inner" ]
 
+GlamLeaves == { Sc(s) : s \in {"f32", "i32", "u32"} } \cup { Vc(n, s) : n \in 2 .. 4, s \in {"f32", "i32", "u32"} } \cup { Mt(n, n, "f32") : n \in 2 .. 4 }
+Rt(t) == [ k |-> "rtarray", e |-> t ]
 MemberSeqs ==
-  CASE Mode = "pairs" -> { << a, b >> : a \in Leaves, b \in Leaves }
+  CASE Mode = "glam" -> { << a, b >> : a \in GlamLeaves, b \in GlamLeaves }
+                        \cup { << Arr(n, a), Sc("f32") >> : n \in 1 .. 3, a \in GlamLeaves }
+                        \cup { << Arr(2, Arr(3, a)), Vc(3, "f32"), Sc("u32") >> : a \in GlamLeaves }
+                        \cup { << a, InnerRef, b >> : a \in GlamLeaves, b \in {Sc("f32"), Vc(3, "f32")} }
+                        \cup { << Arr(3, InnerRef), a >> : a \in GlamLeaves }
+    [] Mode = "rt" -> { << a, Rt(b) >> : a \in {Sc("u32"), Vc(3, "f32"), Vc(4, "f32")}, b \in GlamLeaves \cup {InnerRef, Arr(2, Vc(3, "f32"))} }
+    [] Mode = "pairs" -> { << a, b >> : a \in Leaves, b \in Leaves }
     [] Mode = "triples" -> { << a, b, c >> : a \in Small, b \in Small, c \in Small }
     [] OTHER -> { << Arr(n, a), Sc("f32") >> : n \in 1 .. 3, a \in Leaves }
                 \cup { << Arr(2, Arr(3, a)), Vc(3, "f32") >> : a \in Small }
